@@ -76,6 +76,7 @@ Definition prim_scalar (k : PrimKind) (v : Value) : IRes :=
   | PF32, VF64 _ => ISkip
   | PF64, VF32 _ => ISkip
   | (PF32 | PF64), VInt _ _ => ISkip
+  | (PF32 | PF64), VChar _ => ISkip
   | (PDate32 | PTime32 _), VInt (I32 | I64) z => if in_int I32 z then IOk (LInt z) else IReject
   | (PDate64 | PTime64 _), VInt (I32 | I64) z => IOk (LInt z)
   | PTimestamp _ _, VInt I64 z => IOk (LInt z)
@@ -133,11 +134,7 @@ Fixpoint interp (f : Field) (v : Value) {struct v} : IRes :=
     | DBool => match v with VBool x => IOk (LBool x) | _ => IReject end
     | DPrim k => prim_scalar k v
     | DBytes (BUtf8 | BLargeUtf8) | DView KUtf8View | DDict _ _ =>
-      match fdt' f, v with
-      | DDict _ _, (VStr _ | VUnitVariant _ _) => text_of_scalar v
-      | DDict _ _, _ => IReject
-      | _, _ => text_of_scalar v
-      end
+      text_of_scalar v      (* dictionary-encoded columns take the same scalars as plain strings *)
     | DBytes (BBinary | BLargeBinary) | DView KBinaryView =>
       match v with
       | VBytes s => IOk (LBytes s)
